@@ -562,7 +562,14 @@ def _corr(ns, ctx, c, form, dist, params, H):
         return S.first_vel_corrn(dist, params, T, P, H)
     if form == 'closed-wet-bulb':
         return S.first_vel_corrn(dist, params, T, P, wet_temp=c['wet'])
-    return S.first_vel_corrn(dist, params, T, P, H, CO2_ppm=c['xc'], wavelength=c['lam'])
+    r = core.case_rnd([c, form, dist])
+
+    def twin():
+        # another instrument's reduction in progress: other carrier, other atmosphere, other CO2 content
+        S.first_vel_corrn(r.uniform(10, 5000), params, r.uniform(-10, 40), r.uniform(700, 1050), r.uniform(0, 100),
+                          CO2_ppm=r.uniform(300, 600), wavelength=r.choice([0.532, 0.6328, 0.85, 1.55]))
+    return core.maybe_interleaved(ctx, [c, form, dist], twin,
+                                  lambda: S.first_vel_corrn(dist, params, T, P, H, CO2_ppm=c['xc'], wavelength=c['lam']), p=0.08, kmax=120)
 
 
 def judge_atmo(ns, ctx, c, mon):
@@ -656,13 +663,18 @@ def judge_co2_identity(ns, ctx, c, mon, v, H, e_hpa):
                       {'correction_m': v, 'expected_m': want, 'n_ref': n_ref, 'n_g': n_g, 'e_hPa': e_hpa})
     # what the library passed on (two calls were made: distances d and d2; judge the first)
     if mon.group_calls:
-        a, k, r, exc = mon.group_calls[0]
         ctx.count('atm_group_call_observed')
-        try:
-            ok = (len(a) + len(k) == 5 and not k and float(a[0]) == lam and float(a[1]) == T and float(a[2]) == P
-                  and float(a[4]) == xc and abs(float(a[3]) - e_hpa) <= 1e-12 * max(e_hpa, 1e-300))
-        except Exception:
-            ok = False
+
+        def matches(a, k):
+            try:
+                return (len(a) + len(k) == 5 and not k and float(a[0]) == lam and float(a[1]) == T and float(a[2]) == P
+                        and float(a[4]) == xc and abs(float(a[3]) - e_hpa) <= 1e-12 * max(e_hpa, 1e-300))
+            except Exception:
+                return False
+        # some call observed meanwhile must carry the expected arguments (an interleaved twin call of another reduction
+        # shows in the same trace)
+        ok = any(matches(a_, k_) for a_, k_, _r, _e in mon.group_calls)
+        a, k, r, exc = mon.group_calls[0]
         if not ok:
             ctx.violation('first_vel_corrn:refractivity-arguments', c,
                           {'observed_args': [repr(x) for x in a], 'observed_kwargs': repr(k),
@@ -726,8 +738,13 @@ def judge_disp(ns, ctx, c, mode=None):
     def f(sg):
         return S.phase_refractivity(1.0 / sg, T, P, e, xc)
     try:
-        npp = float(S.phase_refractivity(lam, T, P, e, xc))
-        ngg = float(S.group_refractivity(lam, T, P, e, xc))
+        r = core.case_rnd(c)
+
+        def twin():
+            getattr(S, r.choice(['phase_refractivity', 'group_refractivity']))(
+                r.choice([0.532, 0.6328, 0.85, 1.55]), r.uniform(-10, 40), r.uniform(700, 1050), r.uniform(0, 35), r.uniform(300, 600))
+        npp = float(core.maybe_interleaved(ctx, [c, 'phase'], twin, lambda: S.phase_refractivity(lam, T, P, e, xc), p=0.08, kmax=70))
+        ngg = float(core.maybe_interleaved(ctx, [c, 'group'], twin, lambda: S.group_refractivity(lam, T, P, e, xc), p=0.08, kmax=70))
     except Exception as ex:
         ctx.violation('refractivity:exception', c, {'exception': repr(ex)})
         return
